@@ -394,7 +394,7 @@ def cases_stream(rng, n):
         mod = importlib.import_module(modname)
         for lean_name, fn in sorted(u.fns.items()):
             base = lean_name[len(cls) + 1:]
-            if not lean_name.startswith(cls + "_") or not any(base.startswith(b) for b in ("okay_", "clse_", "read_until_", "open_fn", "open_eff", "get_transport_timeout_s")):
+            if not lean_name.startswith(cls + "_") or not any(base.startswith(b) for b in ("okay_", "clse_", "read_until_", "open_fn", "open_eff", "get_transport_timeout_s", "filesync_")):
                 continue
             if any(isinstance(st, ast.Global) for st in fn["body"]):
                 continue
@@ -417,7 +417,15 @@ def cases_stream(rng, n):
                 vals = {"self": dev, "adb_info": info, "destination": rng.choice([b"shell:ls", b"sync:", b""]), "transport_timeout_s": rng.choice([None, 4]),
                         "read_timeout_s": rng.choice([None, 5, 10]), "timeout_s": rng.choice([None, 7]), "expected_cmds": [constants.CLSE, constants.WRTE],
                         "cmd": None, "data": None, "msg": None, "start": 100, "now": 100 + rng.choice([0, 2, 4, 9]), "eff0": None, "eff1": None, "eff2": None}
-                if base.startswith("read_until_close"):
+                if base.startswith("filesync_"):
+                    from adb_shell.hidden_helpers import _FileSyncTransactionInfo
+                    fi = _FileSyncTransactionInfo(constants.FILESYNC_PULL_FORMAT, 64)
+                    fi.send_buffer = bytearray(rng.randbytes(64))
+                    fi.send_idx = rng.choice([0, 8, 30, 63])
+                    fi.recv_buffer = bytearray(rng.randbytes(rng.choice([0, 3, 8, 20])))
+                    vals.update(filesync_info=fi, size=rng.choice([0, 8, 12, 100]), _=None)
+                    vals["eff0"] = (rng.choice([constants.OKAY, constants.WRTE]), payload)
+                elif base.startswith("read_until_close"):
                     vals["eff0"] = (cmdb, payload)
                 elif base.startswith("read_until"):
                     vals["eff0"] = (cmdb, rid, lid, payload)
